@@ -3,6 +3,7 @@ package main
 import (
 	"fmt"
 	"go/ast"
+	"go/constant"
 	"go/token"
 	"go/types"
 	"os"
@@ -32,6 +33,10 @@ type Ctx struct {
 	AllPkgs map[string]*packages.Package
 	// every module function (incl. anonymous ones and methods), stable order
 	ModFuncs []*ssa.Function
+	// package-level constant map tables (evaluator; see globalMapTable)
+	gtables    map[*ssa.Global]map[constant.Value]constant.Value
+	gtablesBad map[*ssa.Global]bool
+	onceInit   map[*ssa.Function]bool
 
 	Packagers []*Packager
 
@@ -165,6 +170,7 @@ func loadModule(repo, tier, prefix, pattern string, packagers bool) (*Ctx, error
 			c.funcsByObj[o] = fn
 		}
 	}
+	moduleFuncsByProg[prog] = c.ModFuncs
 	if packagers {
 		if err := c.resolvePackagers(); err != nil {
 			return nil, err
@@ -711,3 +717,18 @@ func constOf(o types.Object) string {
 }
 
 func ssautilAllFunctions(c *Ctx) map[*ssa.Function]bool { return ssautil.AllFunctions(c.Prog) }
+
+// moduleFuncsByProg: the module functions of each loaded program, for helpers
+// that are handed SSA values only.
+var moduleFuncsByProg = map[*ssa.Program][]*ssa.Function{}
+
+// isModuleType: t (or what it points to) is a named type declared in the
+// analysed module.
+func (c *Ctx) isModuleType(t types.Type) bool {
+	n, ok := derefType(t).(*types.Named)
+	if !ok || n.Obj().Pkg() == nil {
+		return false
+	}
+	p := n.Obj().Pkg().Path()
+	return p == modPath || strings.HasPrefix(p, modPath+"/")
+}
